@@ -32,11 +32,25 @@ class CallLog:
     """(caller, callee) pairs of `rec` calls; shared by all instances created
     while it is active (cloned mappers, nested equality comparers)"""
 
-    def __init__(self):
+    def __init__(self, stub_below: Any = None):
         self.stack: list[Any] = []
         self.pairs: list[tuple[int | None, int]] = []
         self.keep: list[Any] = []       # keep callee objects alive (ids stay unique)
         self.ncalls = 0
+        # table extraction: only the probe node's own method runs; calls on its
+        # children are recorded and answered by a neutral stand-in, so a refusal
+        # or omission is attributed to exactly one (mapper, kind) row
+        self.stub_below = stub_below
+
+    def parent(self):
+        for p in reversed(self.stack):
+            if reflect._is_node(p):
+                return p
+        return None
+
+    def stubbed(self, expr) -> bool:
+        return (self.stub_below is not None and reflect._is_node(expr)
+                and self.parent() is self.stub_below)
 
     def enter(self, expr):
         parent = None
@@ -67,8 +81,11 @@ def logging_class(cls: type, log_getter: Callable[[], CallLog | None]) -> type:
             lg = log_getter()
             if lg is None:
                 return super().rec(expr, *a, **kw)
+            stub = lg.stubbed(expr)
             lg.enter(expr)
             try:
+                if stub:
+                    return _stand_in(self, expr)
                 return super().rec(expr, *a, **kw)
             finally:
                 lg.exit()
@@ -78,15 +95,35 @@ def logging_class(cls: type, log_getter: Callable[[], CallLog | None]) -> type:
                 lg = log_getter()
                 if lg is None:
                     return super().rec_function_definition(expr, *a, **kw)
+                stub = lg.stubbed(expr)
                 lg.enter(expr)
                 try:
+                    if stub:
+                        return _stand_in(self, expr)
                     return super().rec_function_definition(expr, *a, **kw)
                 finally:
                     lg.exit()
 
     Logging.__name__ = cls.__name__
     Logging.__qualname__ = cls.__qualname__
+    Logging._verif_logging = True
     return Logging
+
+
+def _stand_in(mapper, expr):
+    """neutral result for a stubbed child"""
+    import pytato.equality as peq
+    import pytato.stringifier as pst
+    import pytato.transform as ptf
+    if isinstance(mapper, (ptf.TransformMapper, ptf.TransformMapperWithExtraArgs)):
+        return expr
+    if isinstance(mapper, peq.EqualityComparer):
+        return True
+    if isinstance(mapper, pst.Reprifier):
+        return "_"
+    if isinstance(mapper, ptf.CombineMapper):
+        return mapper.combine()
+    return None
 
 
 _current_log: list[CallLog | None] = [None]
@@ -99,6 +136,8 @@ def _get_log():
 def instrument(inst):
     """swap the instance's class for its logging subclass (in place)"""
     cls = type(inst)
+    if getattr(cls, "_verif_logging", False):
+        return inst
     if cls not in _LOGGING_CACHE:
         _LOGGING_CACHE[cls] = logging_class(cls, _get_log)
     inst.__class__ = _LOGGING_CACHE[cls]
@@ -120,6 +159,9 @@ def patched_class(module, name: str):
     """replace `module.<name>` by its logging subclass for the duration (for
     mapper-based *functions* that construct their own mapper)"""
     cls = getattr(module, name)
+    if getattr(cls, "_verif_logging", False):      # already patched (nested use)
+        yield
+        return
     if cls not in _LOGGING_CACHE:
         _LOGGING_CACHE[cls] = logging_class(cls, _get_log)
     setattr(module, name, _LOGGING_CACHE[cls])
@@ -144,10 +186,23 @@ class MapperEntry:
     family: str = "transform"
 
 
-def _doc_has(obj, text: str) -> bool:
+def _doc_has(obj, text: str, module=None) -> bool:
+    """is `text` still in the class's docstring / source (classes rewritten by
+    optimize_mapper have no retrievable source: search their module's file)"""
+    if text in (getattr(obj, "__doc__", None) or ""):
+        return True
     try:
         return text in inspect.getsource(obj)
     except (OSError, TypeError):
+        pass
+    try:
+        import sys
+        mod = module or sys.modules[obj.__module__]
+        src = Path(mod.__file__).read_text()
+        i = src.index(f"class {obj.__name__}(")
+        j = src.find("\nclass ", i + 1)
+        return text in src[i:j if j > 0 else None]
+    except (KeyError, ValueError, OSError, TypeError, AttributeError):
         return False
 
 
@@ -176,9 +231,15 @@ def mapper_entries() -> list[MapperEntry]:
     out: list[MapperEntry] = []
 
     def cls_entry(name, make, skips=None, call=None, **kw):
-        def run(node, make=make, call=call):
-            inst = instrument(make())
-            return (call or (lambda i, n: i(n)))(inst, node)
+        def run(node, make=make, call=call, name=name):
+            # instances the mapper constructs itself by class name (e.g.
+            # `InputGatherer()` for a function body) are instrumented as well
+            with contextlib.ExitStack() as st:
+                for mod in (ptf, pa):
+                    if isinstance(getattr(mod, name, None), type):
+                        st.enter_context(patched_class(mod, name))
+                inst = instrument(make())
+                return (call or (lambda i, n: i(n)))(inst, node)
         out.append(MapperEntry(name, run, skips, make=make, **kw))
 
     def fn_entry(name, module, clsname, fn, skips=None, **kw):
@@ -189,10 +250,10 @@ def mapper_entries() -> list[MapperEntry]:
 
     # reasons a mapper is documented not to enter function bodies; each quote is
     # checked against today's source (else the exclusion is dropped)
-    def quote(obj, text):
-        return text if _doc_has(obj, text) else None
+    def quote(obj, text, module=None):
+        return text if _doc_has(obj, text, module) else None
 
-    q_topo = quote(ptf.TopoSortMapper, "Does not consider the nodes inside")
+    q_topo = quote(ptf.TopoSortMapper, "Does not consider the nodes inside", ptf)
     q_dep = quote(ptf.DependencyMapper, "do not include arrays from the function's body")
     q_users = quote(ptf.UsersCollector, "Instantiate another UsersCollector")
     # ListOfUsersCollector returns a node-keyed mapping of one namespace, like the two above
@@ -223,15 +284,32 @@ def mapper_entries() -> list[MapperEntry]:
     # equality: rec(expr1, expr2) on two equal but distinct copies; nested `==`
     # creates further comparers, so the class is patched module-wide
     def run_eq(node):
-        other = equal_copy(node)
-        with patched_class(peq, "EqualityComparer"):
-            return peq.EqualityComparer()(node, other)
-    out.append(MapperEntry("EqualityComparer", run_eq, None, family="equality"))
+        # `==` on non-node fields (NormalizedSlice, tuples) creates further comparers that
+        # cannot be instrumented; the row is therefore read off the RESULT: an edge counts as
+        # compared when replacing its child (in an otherwise equal copy) makes the nodes unequal
+        cmp = peq.EqualityComparer()
+        if not cmp(node, equal_copy(node)):
+            raise AssertionError("equal copy compares unequal")
+        reached = []
+        for label, c in reflect.children(node, into_functions=True):
+            try:
+                other = probes.replace_child(equal_copy(node), label, different_from(c))
+            except TypeError:
+                continue
+            if not peq.EqualityComparer()(node, other):
+                reached.append(label)
+        return ("labels", reached)
+    out.append(MapperEntry("EqualityComparer", run_eq, None, family="equality",
+                           make=peq.EqualityComparer))
 
     def run_repr(node):
-        inst = instrument(pst.Reprifier(truncation_depth=10 ** 6))
-        return inst(node)
-    out.append(MapperEntry("Reprifier", run_repr, None, cached=True, family="stringifier"))
+        # children hidden in non-node fields (CSRMatrix, DistributedSend) are printed through
+        # nested, per-object cached repr() calls; the row is therefore read off the OUTPUT:
+        # an edge counts as reached when its child's own rendering occurs in the string
+        text = pst.Reprifier(truncation_depth=10 ** 6)(node)
+        return ("string", text)
+    out.append(MapperEntry("Reprifier", run_repr, None, cached=True, family="stringifier",
+                           make=lambda: pst.Reprifier(truncation_depth=10 ** 6)))
 
     # mapper-based public functions
     fn_entry("deduplicate", ptf, "Deduplicator", ptf.deduplicate, transform=True)
@@ -254,6 +332,26 @@ def mapper_entries() -> list[MapperEntry]:
     fn_entry("collect_materialized_nodes", pa, "MaterializedNodeCollector",
              pa.collect_materialized_nodes, family="analysis")
     return out
+
+
+def different_from(child):
+    """a valid stand-in for `child` that is structurally different from it"""
+    import dataclasses
+
+    from pytato.array import Array, DictOfNamedArrays
+    from pytato.function import Call, FunctionDefinition
+    from pytato.loopy import LoopyCall
+    from ..gen.kinds import VFooTag
+    if isinstance(child, Array) and not child.shape == () or isinstance(child, Array):
+        try:
+            return probes.fresh_like(child)
+        except TypeError:
+            pass
+    if isinstance(child, DictOfNamedArrays):
+        return DictOfNamedArrays(dict(child._data), tags=child.tags | {VFooTag()})
+    if isinstance(child, (Call, LoopyCall, FunctionDefinition)):
+        return dataclasses.replace(child, tags=child.tags | {VFooTag()})
+    raise TypeError(type(child).__name__)
 
 
 def equal_copy(node):
@@ -305,12 +403,22 @@ def edge_table(node) -> dict[int, str]:
 def probe_row(entry: MapperEntry, node) -> tuple[str, Any]:
     """('visited', sorted labels) | ('raises', exception class name)"""
     lab = edge_table(node)
-    log = CallLog()
+    log = CallLog(stub_below=node)
     try:
         with logging_to(log):
-            entry.run(node)
+            res = entry.run(node)
     except Exception as e:      # noqa: BLE001 - the table records refusals as data
         return "raises", type(e).__name__
+    if isinstance(res, tuple) and len(res) == 2 and res[0] == "labels":
+        return "visited", sorted(res[1])
+    if isinstance(res, tuple) and len(res) == 2 and res[0] == "string":
+        import pytato.stringifier as pst
+        labels = []
+        for label, c in reflect.children(node, into_functions=True):
+            sub = pst.Reprifier(truncation_depth=10 ** 6)(c) if not isinstance(c, dict) else None
+            if sub and sub in res[1]:
+                labels.append(label)
+        return "visited", sorted(labels)
     labels = sorted({lab[c] for c in log.callees_of(node) if c in lab})
     return "visited", labels
 
@@ -353,7 +461,17 @@ def users_rows(node) -> dict[str, tuple[str, Any]]:
     # ListOfDirectPredecessorsGetter: node -> [preds]
     try:
         dp = pa.ListOfDirectPredecessorsGetter()(node)
-        labels = sorted(lab.get(id(p), "other:" + type(p).__name__) for p in dp)
+        derived = reflect.derived_shape_children(node)
+
+        def label_of(p):
+            if id(p) in lab:
+                return lab[id(p)]
+            # a derived `.shape` is rebuilt on every access: identify by equality
+            for dl, dc in derived:
+                if type(dc) is type(p) and dc == p:
+                    return dl
+            return "other:" + type(p).__name__
+        labels = sorted(label_of(p) for p in dp)
         res["ListOfDirectPredecessorsGetter"] = ("reports", labels)
     except Exception as e:   # noqa: BLE001
         res["ListOfDirectPredecessorsGetter"] = ("raises", type(e).__name__)
@@ -369,6 +487,20 @@ def _hashable(x) -> bool:
 
 
 USERS_IMPLS = ["ListOfUsersCollector", "UsersCollector", "ListOfDirectPredecessorsGetter"]
+# a FunctionDefinition is not an expression graph root (`ArrayOrNames`) for the users collectors
+USERS_KINDS_SKIP = {"FunctionDefinition"}
+
+
+def documented_exclusions() -> list[tuple[str, str, str, str]]:
+    """(mapper, node class, edge class, quote): a child the mapper need not recurse into by
+    its documented semantics; the quote must still be in today's source"""
+    import pytato.equality as peq
+    out = []
+    q = "return expr1 is expr2"
+    if _doc_has(peq.EqualityComparer.map_data_wrapper, q):
+        # data wrappers are equal only when identical: nothing to compare below them
+        out.append(("EqualityComparer", "DataWrapper", "shape", q))
+    return out
 
 
 @dataclass
@@ -382,6 +514,11 @@ class Tables:
     users: list[tuple[str, str, list[str]]] = field(default_factory=list)         # impl, kind, labels
     users_unsupported: list[tuple[str, str, str]] = field(default_factory=list)
     entries: list[MapperEntry] = field(default_factory=list)
+    kind_class: dict[str, str] = field(default_factory=dict)            # probe name -> class name
+    doc_exclusions: list[tuple[str, str, str, str]] = field(default_factory=list)  # mapper, class, edge class, quote
+
+    def cls(self, kind: str) -> str:
+        return self.kind_class[kind]
 
 
 def extract(with_loopy: bool = True) -> Tables:
@@ -389,6 +526,8 @@ def extract(with_loopy: bool = True) -> Tables:
     t.kinds = {k: v for k, v in probes.probe_nodes(with_loopy).items()
                if type(v).__name__ not in MAPPER_KINDS_SKIP}
     t.entries = mapper_entries()
+    t.kind_class = {k: type(v).__name__ for k, v in t.kinds.items()}
+    t.doc_exclusions = documented_exclusions()
     for k, node in t.kinds.items():
         t.array_edges[k] = [(lb, probes.edge_class(lb))
                             for lb, _ in reflect.children(node, into_functions=True)]
@@ -405,6 +544,8 @@ def extract(with_loopy: bool = True) -> Tables:
             else:
                 t.unsupported.append((e.name, k, val))
     for k, node in t.kinds.items():
+        if t.kind_class[k] in USERS_KINDS_SKIP:
+            continue
         for impl, (st, val) in users_rows(node).items():
             if st == "reports":
                 t.users.append((impl, k, val))
@@ -420,8 +561,12 @@ def extract(with_loopy: bool = True) -> Tables:
 FUNCTION_BODY_CLASSES = ("function", "ret")
 
 
-def scope_excluded(t: Tables, mapper: str, cls: str) -> bool:
-    return mapper in t.skips and cls in FUNCTION_BODY_CLASSES
+def scope_excluded(t: Tables, mapper: str, cls: str, kind: str | None = None) -> bool:
+    if mapper in t.skips and cls in FUNCTION_BODY_CLASSES:
+        return True
+    if kind is not None:
+        return any(m == mapper and kc == t.cls(kind) and ec == cls for m, kc, ec, _ in t.doc_exclusions)
+    return False
 
 
 def missing_rows(t: Tables) -> list[tuple[str, str, str, str]]:
@@ -429,7 +574,7 @@ def missing_rows(t: Tables) -> list[tuple[str, str, str, str]]:
     out = []
     for m, k, labels in t.rows:
         for lb, cls in t.array_edges[k]:
-            if scope_excluded(t, m, cls):
+            if scope_excluded(t, m, cls, k):
                 continue
             if lb not in labels:
                 out.append((m, k, lb, cls))
